@@ -22,6 +22,9 @@ structure Nsqd where
   up : Bool                    -- answers GET requests
   hasTopic : Bool              -- its `/stats?topic=` answer lists the topic
   postUp : Bool := up          -- answers POST requests
+  reports : String := addr     -- the HTTP address its `/info` answer claims (`broadcast_address:http_port`);
+                               -- nsqadmin sends its commands *there* (direct-nsqd mode, tombstone), not to
+                               -- the address it asked
 deriving Repr, DecidableEq
 
 structure World where
@@ -48,12 +51,30 @@ structure Action where
   node : String := ""
 deriving Repr
 
-/-- `url.QueryEscape` on the characters the harness generates (names over `[.a-zA-Z0-9_-]`,
-`#` of `#ephemeral`, `:` of a node address). -/
-def escChar (c : Char) : String :=
-  if c == '#' then "%23" else if c == ':' then "%3A" else String.singleton c
+/-- `url.QueryEscape` (net/url `escape(s, encodeQueryComponent)`), byte by byte over the UTF-8 encoding:
+ASCII letters, digits and `- _ . ~` are kept, a space becomes `+`, every other byte becomes `%XX` with
+upper-case hexadecimal digits. Path parameters of nsqadmin's routes are not validated, so any string can
+arrive here (`/api/topics/a&channel=b` reaches `DeleteTopic("a&channel=b")`). Tied to the real function by the
+`strfn` correspondence stream. -/
+def unreservedByte (b : Nat) : Bool :=
+  (48 ≤ b && b ≤ 57) || (65 ≤ b && b ≤ 90) || (97 ≤ b && b ≤ 122) || b == 45 || b == 95 || b == 46 || b == 126
 
-def esc (s : String) : String := String.join (s.toList.map escChar)
+def hexDigit (n : Nat) : Char := Char.ofNat (if n < 10 then 48 + n else 55 + n)
+
+def escByte (b : Nat) : String :=
+  if unreservedByte b then String.singleton (Char.ofNat b)
+  else if b == 32 then "+"
+  else String.ofList ['%', hexDigit (b / 16), hexDigit (b % 16)]
+
+/-- The UTF-8 encoding of a character, by arithmetic (so that closed examples reduce by `decide`). -/
+def utf8Bytes (c : Char) : List Nat :=
+  let n := c.toNat
+  if n < 128 then [n]
+  else if n < 2048 then [192 + n / 64, 128 + n % 64]
+  else if n < 65536 then [224 + n / 4096, 128 + (n / 64) % 64, 128 + n % 64]
+  else [240 + n / 262144, 128 + (n / 4096) % 64, 128 + (n / 64) % 64, 128 + n % 64]
+
+def esc (s : String) : String := String.join ((s.toList.flatMap utf8Bytes).map escByte)
 
 def topicQS (a : Action) : String := "topic=" ++ esc a.topic
 def chanQS (a : Action) : String := "topic=" ++ esc a.topic ++ "&channel=" ++ esc a.channel
@@ -85,6 +106,13 @@ def nodeUp (w : World) (node : String) : Bool :=
 def nodeHasTopic (w : World) (node : String) : Bool :=
   w.nsqds.any (fun n => n.addr == node && n.up && n.hasTopic)
 
+/-- The address nsqadmin uses for a configured nsqd after it has read its `/info`: `Producer.HTTPAddress()`
+= the reported broadcast address and HTTP port (an address nobody answers on is never looked at). -/
+def reportOf (w : World) (node : String) : String :=
+  match w.nsqds.find? (fun n => n.addr == node) with
+  | some n => n.reports
+  | none => node
+
 /-- Does the producer lookup use the nsqlookupds? (`CreateTopicChannel` always does.) -/
 def viaLookupd (w : World) (a : Action) : Bool :=
   a.kind == .createChannel || lookupdMode w
@@ -102,12 +130,12 @@ def lookupFailed (w : World) (a : Action) : Bool :=
 def producersFor (w : World) (a : Action) : List String :=
   match a.kind with
   | .createTopic => []
-  | .tombstone => if nodeUp w a.node then [a.node] else []
+  | .tombstone => if nodeUp w a.node then [reportOf w a.node] else []
   | _ =>
     if lookupFailed w a then []
     else if viaLookupd w a then
       dedup ((w.lookupds.filter (·.up)).flatMap (·.producers))
-    else w.nsqdAddrs.filter (nodeHasTopic w)
+    else (w.nsqdAddrs.filter (nodeHasTopic w)).map (reportOf w)
 
 /-- The commands POSTed to every configured nsqlookupd. -/
 def lookupdCommands (w : World) (a : Action) : List String :=
